@@ -76,7 +76,7 @@ def main():
         })
     man = {
         "version": 1,
-        "setup_cmd": "cd /verif/lean && lake build && cd /verif/harness && CARGO_NET_OFFLINE=true cargo build --offline && CARGO_NET_OFFLINE=true cargo build --offline --release",
+        "setup_cmd": "cd /verif/lean && lake build Tulisp tulisp_model $(ls Tulisp/Props | sed -n 's/^\\(C[0-9]*\\)\\.lean$/Tulisp.Props.\\1/p') && cd /verif/harness && CARGO_NET_OFFLINE=true cargo build --offline && CARGO_NET_OFFLINE=true cargo build --offline --release",
         "hooks": {
             "guard": "tulisp_verif",
             "enable": "RUSTFLAGS=--cfg tulisp_verif (set in /verif/harness/.cargo/config.toml); exposes tulisp::verif_hooks",
